@@ -9,6 +9,15 @@ sys.path.insert(0, VERIF)
 from harness.core import CHECKS  # noqa
 
 TABLE = {
+    "C18": dict(
+        category="exploration", design_ref="3/C18",
+        technique="generated call histories (interleaved encryptions over shared key objects, host random.seed() calls, decrypt->re-encrypt steps) with history invariants (exact sizes, pairwise distinctness, no fixed bits), CEK observed through the independent reference, cross-process comparison in fresh interpreters",
+        text="Per quick run ~110 generated histories x 3-6 configurations x 140 encryptions (24 alg/enc configurations, 6 curves, 3 serializations, same key objects, equal header values) plus "
+             "re-encryption of decrypted objects: IV, CEK (recovered by unwrapping with the reference), epk, GCMKW iv, PBES2 p2s/p2c must have the exact size, be pairwise distinct and show no "
+             "fixed bit over >= 128 samples; 6 histories are replayed in 4 fresh interpreter processes each (seeding Python's global PRNG identically, as a host might) and must share no value; "
+             "~1900 generated keys per run must be distinct, of the requested size/curve, oct keys without fixed bits.",
+        note="statistical power: constants, resets, caches, fixed bits, wrong sizes; not a randomness-quality test; false alarm probability < 2^-100",
+    ),
     "C17": dict(
         category="exploration", design_ref="3/C17",
         technique="Hypothesis-generated plaintext lengths placed around the limit by construction x compressibility classes x producers (joserfc, independent reference at DEFLATE levels 0-9, zlib framing, chunk-wise built bombs), exact round-trip / must-raise oracle plus tracemalloc peak-memory bound",
